@@ -291,6 +291,7 @@ class FreshSolver:
         self.params = {}
         self.last = None
         self.engine = engine
+        self._solver = None
 
     def set(self, k, v):
         self.params[k] = v
@@ -313,9 +314,16 @@ class FreshSolver:
     def check(self, *extra):
         if self.engine is not None:
             self.engine.saturate(self.assertions() + list(extra))
-        s = z3.Solver()
-        for k, v in self.params.items():
-            s.set(k, v)
+        s = self._solver
+        if s is None:
+            s = self._solver = z3.Solver()
+            for k, v in self.params.items():
+                s.set(k, v)
+            self._params_set = dict(self.params)
+        else:
+            s.reset()
+            for k, v in self.params.items():
+                s.set(k, v)
         for f in self.assertions():
             s.add(f)
         for f in extra:
@@ -533,7 +541,7 @@ class Engine:
 
     MAX_PATHS = 4000
     INLINE_PACKAGES = ('stone', 'spec', 'contracts', 'pyvc', 'lemmas')
-    TIME_BUDGET = 300
+    TIME_BUDGET = 1200
     MAX_DEPTH = 14
 
     def __init__(self, seed=0):
